@@ -60,13 +60,21 @@ func main() {
 		return
 	}
 	_ = protovalidate.New
+	mo := prototext.MarshalOptions{Multiline: false}
 	for _, file := range out {
-		fd := protodesc.ToFileDescriptorProto(file)
-		fd.SourceCodeInfo = nil
-		fmt.Println(prototext.Format(fd))
-		txt, err := protoprint.PrintFile(context.Background(), file, "")
-		fmt.Println("PRINT:", err)
-		fmt.Println(txt)
+		for i := 0; i < file.Messages().Len(); i++ {
+			md := file.Messages().Get(i)
+			for j := 0; j < md.Fields().Len(); j++ {
+				fd := md.Fields().Get(j)
+				fdp := protodesc.ToFieldDescriptorProto(fd)
+				fmt.Printf("W %s %s %v opt3=%v: %s\n", fd.Name(), fd.Kind(), fd.Cardinality(), fd.HasOptionalKeyword(), mo.Format(fdp.Options))
+			}
+		}
+		if os.Getenv("PRINT") != "" {
+			txt, err := protoprint.PrintFile(context.Background(), file, "")
+			fmt.Println("PRINT:", err)
+			fmt.Println(txt)
+		}
 		cache := j5schema.NewSchemaCache()
 		for i := 0; i < file.Messages().Len(); i++ {
 			func() {
@@ -80,7 +88,14 @@ func main() {
 					fmt.Println("READER ERR:", err)
 					return
 				}
-				fmt.Println(prototext.Format(s.ToJ5Root()))
+				root := s.ToJ5Root()
+				if o := root.GetObject(); o != nil {
+					for _, p := range o.Properties {
+						fmt.Printf("R %s\n", mo.Format(p))
+					}
+				} else {
+					fmt.Println(mo.Format(root))
+				}
 			}()
 		}
 	}
